@@ -49,6 +49,9 @@ func c06ResponseLocks(c *Ctx) {
 	c.R.Rule("response-locks", "every load/store of responseContext.errors executes with responseContext.errorsMu held, every load/store of .extensions with .extensionsMu held (accesses on a struct allocated in the same function before it is shared are exempt)", 10)
 	table := []guardedField{{pkgGraphql, "responseContext", "errors", "errorsMu"}, {pkgGraphql, "responseContext", "extensions", "extensionsMu"}}
 	c.checkGuardedBy(c.moduleFuncs(func(p string) bool { return p == pkgGraphql }), table, "")
+	// the federated-tracing tree builder is written from every concurrently resolving field
+	ftv1 := modPath("graphql/handler/apollofederatedtracingv1")
+	c.checkGuardedBy(c.moduleFuncs(func(p string) bool { return p == ftv1 }), []guardedField{{ftv1, "TreeBuilder", "nodes", "mu"}}, "ftv1:")
 }
 
 // checkGuardedBy emits one obligation per access.
